@@ -210,8 +210,13 @@ class Geometry2D(AbstractGeometry2D):
         The 2D (y,x) pixel-value coordinate at the centre of the pixel the input scaled coordinate is located in.
         """
 
-        pixel_coordinate_2d = self.pixel_coordinates_2d_from(
-            scaled_coordinates_2d=scaled_coordinate_2d
+        pixel_coordinate_2d = np.floor(
+            geometry_util.grid_pixels_2d_slim_from(
+                grid_scaled_2d_slim=np.array([scaled_coordinate_2d]),
+                shape_native=self.shape_native,
+                pixel_scales=self.pixel_scales,
+                origin=self.origin,
+            )[0]
         )
         return self.scaled_coordinates_2d_from(pixel_coordinates_2d=pixel_coordinate_2d)
 
